@@ -47,3 +47,36 @@ class RefSMT:
             sub = [(p, v) for p, v in items if p >> (self.depth - d) == pre]
             out.append(self._rec(d, sub))
         return tuple(out)
+
+
+class RefSMTState:
+    """All node hashes of the tree over `leaves`, built level by level from the leaves up
+    (O(n * depth) hashes); absent sub-trees take the per-depth default hash."""
+
+    def __init__(self, ref, leaves):
+        self.ref = ref
+        D = ref.depth
+        level = {k: keccak(v) for k, v in leaves.items()}
+        H = {}
+        for d in range(D, 0, -1):
+            for p, h in level.items():
+                H[(d, p)] = h
+            nxt = {}
+            for p in {q >> 1 for q in level}:
+                left = level.get(p << 1, ref.dh[d])
+                right = level.get((p << 1) | 1, ref.dh[d])
+                nxt[p] = keccak(left + right)
+            level = nxt
+        self.H = H
+        self.root = level.get(0, ref.dh[0])
+
+    def _at(self, d, p):
+        return self.H.get((d, p), self.ref.dh[d])
+
+    def path_hashes(self, key):
+        D = self.ref.depth
+        return tuple(self._at(d, key >> (D - d)) for d in range(1, D + 1))
+
+    def sibling_hashes(self, key):
+        D = self.ref.depth
+        return tuple(self._at(d, (key >> (D - d)) ^ 1) for d in range(1, D + 1))
